@@ -26,6 +26,9 @@ func c07Quality(q, text string) (int, bool) {
 	return m[0].Score, true
 }
 
+// c07FoldQueries: requests that spell a planted marker with the other member of a three-member case class.
+var c07FoldQueries []string
+
 // c07Typos: misspellings the loaded word table knows (requests made of them are asked in the first phase after the load).
 var c07Typos []string
 
@@ -52,6 +55,7 @@ func engineFuzzy(ctx *Ctx) {
 	for d := 0; d < nDB; d++ {
 		var db *database.Database
 		var markers []string
+		c07FoldQueries = nil
 		dbName := fmt.Sprintf("gen-%d-%d", ctx.Shard, d)
 		if d == 0 && ctx.Shard%8 == 6 {
 			db = ctx.Shipped()
@@ -73,6 +77,27 @@ func engineFuzzy(ctx *Ctx) {
 			}
 			cmds0 := vlib.GenCommands(r, sp)
 			markers = c07PlantMarkers(r, cmds0)
+			if g%6 == 4 && len(cmds0) >= 3 {
+				// letters with a third spelling under case folding (micro sign / mu, sigma / final sigma, k / KELVIN SIGN, s / long s,
+				// beta / curled beta, theta / script theta, pi / omega-pi): the entry holds one spelling, the request another; the
+				// markers are asked for (misspelt by one dropped letter) like the others
+				pairs := [][2]string{{"\u00b5", "\u03bc"}, {"\u03c3", "\u03c2"}, {"\u03a3", "\u03c2"}, {"k", "\u212a"}, {"K", "\u212a"}, {"s", "\u017f"}, {"S", "\u017f"},
+					{"\u03b2", "\u03d0"}, {"\u03b8", "\u03d1"}, {"\u03c0", "\u03d6"}, {"\u00e5", "\u212b"}, {"\u03ba", "\u03f0"}, {"\u03c1", "\u03f1"}, {"\u03b5", "\u03f5"}}
+				for k := 0; k < 3; k++ {
+					pr := pairs[(g/6+k*5)%len(pairs)]
+					if r.Intn(2) == 0 {
+						pr[0], pr[1] = pr[1], pr[0]
+					}
+					rare := make([]byte, 6)
+					for j := range rare {
+						rare[j] = "zqxjvw"[r.Intn(6)]
+					}
+					i := r.Intn(len(cmds0))
+					cmds0[i].Description += " " + string(rare[:3]) + pr[1] + string(rare[3:])
+					c07FoldQueries = append(c07FoldQueries, string(rare[:3])+pr[0]+string(rare[3:]))
+				}
+				ctx.R.Path("databases-with-letters-of-a-three-member-case-class", 1)
+			}
 			if len(markers) > 5 {
 				ctx.R.Path("databases-with-same-text-pairs-of-different-eligibility", 1)
 			}
@@ -244,6 +269,11 @@ func c07Phase(ctx *Ctx, r *rand.Rand, db *database.Database, dbName, phase strin
 				q = q[:at] + odd + q[at:]
 			}
 			ctx.R.Path("queries-with-non-ascii-blanks-or-format-characters", 1)
+		}
+		if k := qi - 2*len(markers) - len(c07Typos); phase == "load" && k >= 0 && k < len(c07FoldQueries) {
+			q = c07FoldQueries[k]
+			marker = true
+			ctx.R.Path("requests-spelt-with-another-member-of-a-case-class", 1)
 		}
 		if k := qi - 2*len(markers); phase == "load" && k >= 0 && k < len(c07Typos) {
 			q = c07Typos[k]
